@@ -13,12 +13,28 @@ use std::sync::atomic::{AtomicU64, Ordering};
 
 // ------------------------------------------------------------------------------------------------ model
 
-/// colour of a cell: D = entry 0..=15 of the DOS palette, X = xterm-256 entry, R = arbitrary RGB (both inserted into the buffer palette)
+/// colour of a cell: D = entry 0..=15 of the DOS palette, X = xterm-256 entry, R = arbitrary RGB (both inserted into the
+/// buffer palette when first used), P(k) = entry 16+k of a large palette (Case::pal colours pre-inserted before any cell)
 #[derive(Clone, Copy, Debug, Hash, PartialEq, Eq, Serialize, Deserialize)]
 enum Col {
     D(u8),
     X(u8),
     R(u8, u8, u8),
+    P(u16),
+}
+
+/// colour k of the large palette: pairwise distinct, different from every DOS and xterm-256 colour (blue is 0x11), so
+/// that `Palette::insert_color` appends them and P(k) sits at palette index 16+k exactly
+fn pre_rgb(k: u16) -> (u8, u8, u8) {
+    (1 + (k % 250) as u8, 3 + 7 * (k / 250) as u8, 0x11)
+}
+const PAL_MAX: u16 = 520;
+/// large-palette entries next to the interesting palette indices 15/16, 255/256/257, 511/512/513 (and the last ones)
+fn special_entries(n: u16) -> Vec<u16> {
+    let mut v: Vec<u16> = [16u16, 17, 254, 255, 256, 257, 258, 510, 511, 512, 513, 514].iter().map(|i| i - 16).filter(|k| *k < n).collect();
+    v.push(n - 1);
+    v.push(n.saturating_sub(2));
+    v
 }
 
 const F_BOLD: u8 = 1;
@@ -185,6 +201,13 @@ struct Case {
     /// the generator removed the trigger of an open known finding from this buffer (see `steer`)
     #[serde(default)]
     steered: bool,
+    /// 0, or the number (250..=520) of distinct colours inserted into the palette before the cells are set ("large
+    /// palette"); arbitrary RGB colours of the cells are then taken from the entries next to index 16, 256, 512 and the end
+    #[serde(default)]
+    pal: u16,
+    /// storage shape of the saved buffer (icyv::shape::perturb code, 0 = as built)
+    #[serde(default)]
+    shape: u8,
 }
 
 // ------------------------------------------------------------------------------------------------ normal form (the grid actually saved)
@@ -194,6 +217,8 @@ struct Norm {
     opts: Opts,
     w: usize,
     grid: Vec<Vec<Cell>>,
+    pal: u16,
+    shape: u8,
 }
 
 fn dos_rgb(i: u8) -> (u8, u8, u8) {
@@ -204,12 +229,23 @@ fn col_rgb(c: Col) -> (u8, u8, u8) {
         Col::D(i) => dos_rgb(i),
         Col::X(i) => XTERM_256_PALETTE[i as usize].1.get_rgb(),
         Col::R(r, g, b) => (r, g, b),
+        Col::P(k) => pre_rgb(k),
     }
 }
 /// colours that are the same palette entry after `Palette::insert_color` get one spelling
-fn canon(c: Col) -> Col {
+fn canon(c: Col, pal: u16) -> Col {
     match c {
         Col::D(i) => Col::D(i & 15),
+        Col::P(k) if pal > 0 => Col::P(k % pal),
+        Col::P(k) => {
+            let (r, g, b) = pre_rgb(k % PAL_MAX);
+            Col::R(r, g, b)
+        }
+        Col::R(r, g, b) if pal > 0 && !(0..16u8).any(|i| dos_rgb(i) == (r, g, b)) => {
+            // with a large palette the arbitrary colours are its entries around the interesting indices
+            let s = special_entries(pal);
+            Col::P(s[(r as usize + 3 * g as usize + 7 * b as usize) % s.len()])
+        }
         other => {
             let rgb = col_rgb(other);
             for i in 0..16u8 {
@@ -233,11 +269,11 @@ fn encodable(ch: u8, ctrl: u8) -> bool {
 }
 
 /// make a cell legal for the ice mode / control-char handling (construction instead of discarding)
-fn legal_cell(c: Cell, o: &Opts, mask: u8) -> Cell {
+fn legal_cell(c: Cell, o: &Opts, mask: u8, pal: u16) -> Cell {
     let Cell(mut ch, fg, bg, fl) = c;
     let mut fl = fl & mask;
-    let fg = canon(fg);
-    let mut bg = canon(bg);
+    let fg = canon(fg, pal);
+    let mut bg = canon(bg, pal);
     match o.ice {
         1 => {
             // blink mode: no high-intensity background entries
@@ -259,6 +295,7 @@ fn legal_cell(c: Cell, o: &Opts, mask: u8) -> Cell {
 fn normalize(c: &Case) -> Norm {
     let w = if c.opts.sauce { (c.w as usize).clamp(1, 132) } else { 80 };
     let h = c.rows.len().clamp(1, 60);
+    let pal = if c.pal == 0 { 0 } else { c.pal.clamp(2, PAL_MAX) };
     let mut grid = Vec::with_capacity(h);
     for y in 0..h {
         let mut line = Vec::with_capacity(w);
@@ -278,7 +315,7 @@ fn normalize(c: &Case) -> Norm {
             line.resize(w, BLANK);
         }
         for cell in line.iter_mut() {
-            *cell = legal_cell(*cell, &c.opts, c.mask);
+            *cell = legal_cell(*cell, &c.opts, c.mask, pal);
             if c.bom && cell.0 >= 0x80 {
                 cell.0 = b'a' + (cell.0 & 15);
             }
@@ -290,26 +327,30 @@ fn normalize(c: &Case) -> Norm {
             grid[0][i] = Cell(*b, Col::D(7), Col::D(0), 0);
         }
     }
-    Norm { opts: c.opts, w, grid }
+    Norm { opts: c.opts, w, grid, pal, shape: c.shape % icyv::shape::CODES }
 }
 
 /// re-establish legality after an option of a normal form was changed
 fn relegalize(n: &mut Norm) {
     let o = n.opts;
+    let pal = n.pal;
     for row in n.grid.iter_mut() {
         for c in row.iter_mut() {
-            *c = legal_cell(*c, &o, 0xFF);
+            *c = legal_cell(*c, &o, 0xFF, pal);
         }
     }
 }
 
 // ------------------------------------------------------------------------------------------------ engine round trip
 
-fn pal_index(buf: &mut Buffer, c: Col) -> u32 {
+fn pal_index(buf: &mut Buffer, cache: &mut std::collections::HashMap<Col, u32>, c: Col) -> u32 {
     match c {
         Col::D(i) => i as u32,
-        Col::X(i) => buf.palette.insert_color(XTERM_256_PALETTE[i as usize].1.clone()),
-        Col::R(r, g, b) => buf.palette.insert_color(Color::new(r, g, b)),
+        Col::P(k) => 16 + k as u32,
+        other => *cache.entry(other).or_insert_with(|| {
+            let (r, g, b) = col_rgb(other);
+            buf.palette.insert_color(Color::new(r, g, b))
+        }),
     }
 }
 
@@ -321,10 +362,16 @@ fn build(n: &Norm) -> Buffer {
         1 => IceMode::Blink,
         _ => IceMode::Ice,
     };
+    for k in 0..n.pal {
+        let (r, g, b) = pre_rgb(k);
+        let idx = buf.palette.insert_color(Color::new(r, g, b));
+        assert_eq!(idx, 16 + k as u32, "large palette entry must be appended");
+    }
+    let mut cache = std::collections::HashMap::new();
     for (y, row) in n.grid.iter().enumerate() {
         for (x, Cell(ch, fg, bg, fl)) in row.iter().enumerate() {
-            let f = pal_index(&mut buf, *fg);
-            let b = pal_index(&mut buf, *bg);
+            let f = pal_index(&mut buf, &mut cache, *fg);
+            let b = pal_index(&mut buf, &mut cache, *bg);
             let mut a = TextAttribute::new(f, b);
             a.set_is_bold(fl & F_BOLD != 0);
             a.set_is_blinking(fl & F_BLINK != 0);
@@ -337,6 +384,8 @@ fn build(n: &Norm) -> Buffer {
             buf.layers[0].set_char((x as i32, y as i32), AttributedChar::new(*ch as char, a));
         }
     }
+    // same picture, stored differently (extra lines, longer rows, larger layer, other terminal size ...)
+    icyv::shape::perturb(&mut buf, n.shape);
     buf
 }
 
@@ -568,6 +617,10 @@ fn has_bom(n: &Norm) -> bool {
 /// one simplification step of the attribution
 #[derive(Clone, Copy, Debug)]
 enum Step {
+    /// storage shape 0 (buffer as built)
+    Shape,
+    /// no large palette (its colours become ordinary RGB colours inserted on first use)
+    Palette,
     /// smallest window of rows around the failing row
     Window,
     /// two rows joined into one (right half of the upper, left half of the lower)
@@ -676,6 +729,25 @@ impl Attr {
     fn apply(&mut self, s: Step) -> (bool, bool) {
         let (n, p) = (self.n.clone(), self.p);
         match s {
+            Step::Shape => {
+                if n.shape == 0 {
+                    return (false, false);
+                }
+                let mut c = n.clone();
+                c.shape = 0;
+                let kept = self.keep_if_fails(c, p);
+                (kept, !kept)
+            }
+            Step::Palette => {
+                if n.pal == 0 {
+                    return (false, false);
+                }
+                let mut c = n.clone();
+                c.pal = 0;
+                relegalize(&mut c);
+                let kept = self.keep_if_fails(c, p);
+                (kept, !kept)
+            }
             Step::Window => {
                 let h = n.grid.len();
                 if !self.positional || h < 2 {
@@ -927,7 +999,7 @@ fn attribute(n0: &Norm, first: &Mis) -> (String, String) {
 
     a.try_upgrade();
 
-    let mut steps: Vec<Step> = vec![Step::Window, Step::Join, Step::Runs, Step::Width, Step::Window, Step::Join, Step::Runs, Step::Bom, Step::Unmargin, Step::Trailing];
+    let mut steps: Vec<Step> = vec![Step::Shape, Step::Palette, Step::Window, Step::Join, Step::Runs, Step::Width, Step::Window, Step::Join, Step::Runs, Step::Bom, Step::Unmargin, Step::Trailing];
     steps.extend((0..FEATURES.len()).map(Step::Feature));
     steps.push(Step::AllOpts);
     steps.extend((0..11).map(Step::Opt));
@@ -969,6 +1041,12 @@ fn attribute(n0: &Norm, first: &Mis) -> (String, String) {
     // features in order of specificity (flags, colours, glyph classes, then structure), options alphabetically
     let mut feats: Vec<String> = Vec::new();
     let mut opts: Vec<String> = Vec::new();
+    if needed.iter().any(|s| matches!(s, Step::Shape)) {
+        feats.push(format!("shape_{}", shape_name(a.n.shape)));
+    }
+    if needed.iter().any(|s| matches!(s, Step::Palette)) {
+        feats.push("large_palette".into());
+    }
     for s in &needed {
         if let Step::Feature(i) = s {
             feats.push(FEATURES[*i].0.into());
@@ -1004,8 +1082,14 @@ fn attribute(n0: &Norm, first: &Mis) -> (String, String) {
         if feats.is_empty() { "-".to_string() } else { feats.join("+") },
         if opts.is_empty() { "-".to_string() } else { opts.join("+") }
     );
-    let reduced = format!("reduced witness: opts={} w={} rows={} -> {}", a.n.opts.tag(), a.n.w, compact_rows(&a.n.grid), a.msg);
+    let reduced = format!("reduced witness: opts={} w={} shape={} palette+{} rows={} -> {}", a.n.opts.tag(), a.n.w, shape_name(a.n.shape), a.n.pal, compact_rows(&a.n.grid), a.msg);
     (key, reduced)
+}
+
+/// names of the storage shapes, as icyv::shape::perturb reports them
+fn shape_name(code: u8) -> &'static str {
+    static NAMES: std::sync::OnceLock<Vec<&'static str>> = std::sync::OnceLock::new();
+    NAMES.get_or_init(|| (0..icyv::shape::CODES).map(|c| icyv::shape::perturb(&mut Buffer::new((2, 2)), c)).collect())[(code % icyv::shape::CODES) as usize]
 }
 
 fn compact_rows(g: &[Vec<Cell>]) -> String {
@@ -1066,7 +1150,17 @@ fn nontrivial(n: &Norm) -> bool {
 fn check(c: &Case) -> Verdict {
     let n = normalize(c);
     match roundtrip(&n, None) {
-        Outcome::Same => Verdict::pass(nontrivial(&n), if c.steered { format!("{}~", n.opts.tag()) } else { n.opts.tag() }),
+        Outcome::Same => {
+            let mut class = n.opts.tag();
+            if c.steered {
+                class.push('~');
+            }
+            if n.shape != 0 {
+                class.push('/');
+                class.push_str(shape_name(n.shape));
+            }
+            Verdict::pass(nontrivial(&n), class)
+        }
         Outcome::Panic(sig, msg) => Verdict::fail(sig, format!("opts={} {msg}", n.opts.tag())),
         Outcome::SaveError(e) => {
             let m = Mis { clause: "save_error", x: 0, y: 0, msg: e };
@@ -1086,8 +1180,10 @@ fn check(c: &Case) -> Verdict {
             Verdict::fail(
                 key,
                 format!(
-                    "opts={} {}x{}: {} [clauses violated: {}]; file[..{cut}]=\"{}\"; {red}",
+                    "opts={} shape={} palette+{} {}x{}: {} [clauses violated: {}]; file[..{cut}]=\"{}\"; {red}",
                     n.opts.tag(),
+                    shape_name(n.shape),
+                    n.pal,
                     n.w,
                     n.grid.len(),
                     first.msg,
@@ -1158,11 +1254,16 @@ fn comp() -> BoxedStrategy<u8> {
 fn rgb() -> BoxedStrategy<Col> {
     (comp(), comp(), comp()).prop_map(|(r, g, b)| Col::R(r, g, b)).boxed()
 }
+/// entry of the large palette (an ordinary RGB colour in buffers without one), weighted towards the entries whose palette
+/// index is next to 16, 256, 512
+fn pcol() -> BoxedStrategy<Col> {
+    prop_oneof![3 => proptest::sample::select(special_entries(PAL_MAX)).prop_map(Col::P), 1 => (0u16..PAL_MAX).prop_map(Col::P)].boxed()
+}
 fn fg_col() -> BoxedStrategy<Col> {
-    prop_oneof![5 => Just(Col::D(7)), 5 => (0u8..16).prop_map(Col::D), 1 => any::<u8>().prop_map(Col::X), 1 => rgb()].boxed()
+    prop_oneof![10 => Just(Col::D(7)), 10 => (0u8..16).prop_map(Col::D), 2 => any::<u8>().prop_map(Col::X), 2 => rgb(), 1 => pcol()].boxed()
 }
 fn bg_col() -> BoxedStrategy<Col> {
-    prop_oneof![6 => Just(Col::D(0)), 4 => (0u8..16).prop_map(Col::D), 1 => any::<u8>().prop_map(Col::X), 1 => rgb()].boxed()
+    prop_oneof![12 => Just(Col::D(0)), 8 => (0u8..16).prop_map(Col::D), 2 => any::<u8>().prop_map(Col::X), 2 => rgb(), 1 => pcol()].boxed()
 }
 fn flags() -> BoxedStrategy<u8> {
     let b = |p: f64| proptest::bool::weighted(p);
@@ -1341,16 +1442,20 @@ fn encode(n: &Norm) -> Vec<Row> {
 
 fn cases(st: Steer) -> BoxedStrategy<Case> {
     let w = prop_oneof![4 => Just(80u8), 1 => Just(1u8), 1 => Just(132u8), 1 => 2u8..=40, 3 => 1u8..=132];
-    (OptSeq { next: AtomicU64::new(0) }, w, mask(), proptest::bool::weighted(0.012), rows())
-        .prop_map(move |(opts, w, mask, bom, rows)| {
-            let c = Case { opts, w, mask, bom, rows, steered: false };
+    // ~10% of the buffers carry a large palette: 250..=520 colours inserted before the cells (so that cell colours sit at
+    // palette indices beyond 255 / 511); ~40% are stored in one of the perturbed shapes
+    let pal = prop_oneof![36 => Just(0u16), 1 => Just(250u16), 1 => Just(520u16), 2 => 250u16..=520];
+    let shape = prop_oneof![6 => Just(0u8), 4 => 1u8..icyv::shape::CODES];
+    (OptSeq { next: AtomicU64::new(0) }, w, mask(), proptest::bool::weighted(0.012), rows(), pal, shape)
+        .prop_map(move |(opts, w, mask, bom, rows, pal, shape)| {
+            let c = Case { opts, w, mask, bom, rows, steered: false, pal, shape };
             if !st.any() {
                 return c;
             }
             let mut n = normalize(&c);
             if steer(&mut n, &st) {
                 // the steered grid, spelled out (normalize() of it is the grid itself)
-                Case { opts, w: n.w as u8, mask: 0xFF, bom: false, rows: encode(&n), steered: true }
+                Case { opts, w: n.w as u8, mask: 0xFF, bom: false, rows: encode(&n), steered: true, pal, shape }
             } else {
                 c
             }
@@ -1408,6 +1513,15 @@ fn minimize(c: &Case) -> Vec<Case> {
     if c.opts.sauce && c.w != 80 {
         out.push(Case { w: 80, ..c.clone() });
     }
+    if c.shape != 0 {
+        out.push(Case { shape: 0, ..c.clone() });
+    }
+    if c.pal != 0 {
+        out.push(Case { pal: 0, ..c.clone() });
+        if c.pal > 250 {
+            out.push(Case { pal: 250, ..c.clone() });
+        }
+    }
     for i in 0..11 {
         if c.opts.get(i) != Opts::BASE.get(i) {
             let mut d = c.clone();
@@ -1428,12 +1542,14 @@ fn main() {
         "buffers: single-layer buffers, width 80 (1..=132 when save_sauce), height 1..=60, rows = run-structured cell lists (runs of 1..=width equal cells, cut at the right margin, \
          rest of the row filled with default blanks / coloured blanks / a run that reaches the margin); characters: full CP437 range incl. NUL, 0xFF, 0xDB, 0x1A and the eight control codes, \
          made encodable for the chosen control_char_handling by construction (Ignore: ESC BEL FF DEL CR LF replaced; FilterOut: all eight replaced; IcyTerm: all kept); colours: 16x16 DOS pairs, \
-         xterm-256 entries and arbitrary RGB inserted into the palette; flags bold/blink/underline/crossed-out/italic/faint/double-underline/concealed gated by a per-buffer mask; cells made legal \
+         xterm-256 entries and arbitrary RGB inserted into the palette; about 10% of the buffers have a large palette (250..=520 distinct colours inserted before the cells; their arbitrary colours are then the \
+         entries next to palette index 16, 256, 512 and the last one, as foreground and as background of blank runs); about 40% of the buffers are saved in a perturbed storage shape (icyv::shape: extra lines below, rows longer than \
+         the width, layer larger than the buffer, terminal size larger/smaller than the buffer, unallocated trailing cells, combined) that leaves the picture inside the buffer rectangle unchanged; flags bold/blink/underline/crossed-out/italic/faint/double-underline/concealed gated by a per-buffer mask; cells made legal \
          for the ice mode by construction (Blink: background entries 8..15 folded to 0..7; Ice: no blink flag). Option vector = 8 booleans {compress,use_cursor_forward,use_repeat_sequences,\
          preserve_line_length,longer_terminal_output,use_extended_colors,save_sauce,lossles_output} x 3 screen preparations x 3 control-char modes x 3 ice modes = 6912 vectors; every shard of 6912 \
          consecutive cases walks through all of them in order (16 shards in the quick tier: each vector 16 times), each with its own generated buffer; modern_terminal_output=false, output_line_length=None. \
          Class tag = 2 hex digits of the booleans (bit0 compress, 1 cursor_forward, 2 repeat, 3 preserve_line_length, 4 longer_terminal, 5 extended_colors, 6 save_sauce, 7 lossles_output) followed by the \
-         digits prep(0 None,1 ClearScreen,2 Home) ctrl(0 Ignore,1 IcyTerm,2 FilterOut) ice(0 Unlimited,1 Blink,2 Ice). \
+         digits prep(0 None,1 ClearScreen,2 Home) ctrl(0 Ignore,1 IcyTerm,2 FilterOut) ice(0 Unlimited,1 Blink,2 Ice), followed by /<storage shape> when the buffer was not saved as built. \
          Non-trivial: >= 2 attribute changes between consecutive cells AND >= 1 compressible run (>= 5 equal cells in a row or >= 2 trailing black blanks) AND option vector != (SaveOptions::default(), Unlimited); \
          distinct by hash of the case. While a known finding with one of the ids listed under coverage.steering is open, the generator removes its trigger from the buffers \
          (bold on dark DOS foregrounds / concealed flag / trailing blinking blanks under compress / >=5 spaces on a 48;5;n background under compress+cursor_forward+extended_colors / \
